@@ -288,7 +288,10 @@ def replay_known(mod, prop):
             msg = mod.replay(doc["case"])
         except Violation as v:
             msg = str(v)
-        out.append({"id": e["id"], "status": e["status"], "what": e["what"],
+        what = e["what"]
+        if isinstance(what, dict):
+            what = what.get(prop) or next(iter(what.values()))
+        out.append({"id": e["id"], "status": e["status"], "what": what,
                     "replay": rp, "violates": msg is not None,
                     "message": msg})
     return out
